@@ -333,6 +333,22 @@ def check_e(ck, repo):
 
 
 
+def _range_text(fn, e):
+    """Text of a range bound, read through a local that holds a field of the criterion
+    (`start = self.start`, bound once, the field not written in the method)."""
+    if isinstance(e, ast.Name):
+        defs = [s for s in ast.walk(fn) if isinstance(s, (ast.Assign, ast.AnnAssign)) and getattr(s, "value", None) is not None
+                and src_of(s.targets[0] if isinstance(s, ast.Assign) else s.target) == e.id]
+        stores = [n for n in ast.walk(fn) if isinstance(n, ast.Name) and n.id == e.id and isinstance(n.ctx, ast.Store)]
+        if len(defs) == 1 and len(stores) == 1:
+            v = defs[0].value
+            if isinstance(v, ast.Attribute) and isinstance(v.value, ast.Name) and v.value.id == "self":
+                written = any(isinstance(n, ast.Attribute) and isinstance(n.ctx, ast.Store) and src_of(n) == src_of(v) for n in ast.walk(fn))
+                if not written:
+                    return src_of(v)
+    return src_of(e)
+
+
 def check_b(ck, repo):
     cm = cysrc.parse(repo, COMMON)
     c = cm.cls("CommonRegressorCriterion")
@@ -347,7 +363,7 @@ def check_b(ck, repo):
             raise AnalysisError(f"anchor vanished: CommonRegressorCriterion.{mname}")
         means = _calls(fn, "_mean")
         mses = _calls(fn, "_mse")
-        got = [(src_of(m.args[0]), src_of(m.args[1])) for m in means]
+        got = [(_range_text(fn, m.args[0]), _range_text(fn, m.args[1])) for m in means]
         ck.verdict(got == ranges, "C09.b", None, f"{mname}: _mean ranges {got}", "means computed on the node / left / right ranges", f"{mname} computes means on {got}, expected {ranges}", file=COMMON, function=f"CommonRegressorCriterion.{mname}", line=fn.lineno)
         for ms in mses:
             a, b, mean, w = [src_of(x) for x in ms.args[:4]]
@@ -366,8 +382,8 @@ def check_b(ck, repo):
     fn = c.methods["children_impurity_weights"]
     asg = {src_of(s.targets[0]): s.value for s in ast.walk(fn) if isinstance(s, ast.Assign) and isinstance(s.value, ast.Call)}
     l, r = asg.get("impurity_left[0]"), asg.get("impurity_right[0]")
-    okl = l is not None and [src_of(x) for x in l.args[:2]] == ["self.start", "self.pos"]
-    okr = r is not None and [src_of(x) for x in r.args[:2]] == ["self.pos", "self.end"]
+    okl = l is not None and [_range_text(fn, x) for x in l.args[:2]] == ["self.start", "self.pos"]
+    okr = r is not None and [_range_text(fn, x) for x in r.args[:2]] == ["self.pos", "self.end"]
     ck.verdict(okl and okr, "C09.b", None, "impurity_left <- (start,pos); impurity_right <- (pos,end)", "left and right impurities come from their own ranges", "left/right impurities are computed on exchanged or wrong ranges", file=COMMON, function="CommonRegressorCriterion.children_impurity_weights", line=fn.lineno)
     # update/reset/reverse_reset keep pos and the weights in step
     for mname, newpos in (("update", "new_pos"), ("reset", "self.start"), ("reverse_reset", "self.end")):
